@@ -51,7 +51,7 @@ def make_cfg(spec):
     if alt == 1000.0:
         c.detector.radio.low_frequency, c.detector.radio.high_frequency = 50.0, 200.0
         c.simulation.tau_shower.table_version = "1"
-    return c
+    return core.validated(c, f"C14 configuration {spec}")
 
 
 def run_one(cfg, seed, scheduler):
